@@ -131,6 +131,9 @@ def _gmx(prop, tier):
                 out.append(Scenario(f"gmx1/{sh}/{tk}/{op}", nv.nv_step, params=dict(prop=prop, market="gmx1", shape=sh, token=tk, op=op), entry=(f"GmxMarket.{op}", "Broker.get_account_status"), canary=_canary(prop) if (sh, tk, op) == ("csv", "weth", "buy_glp") else None, **kw1))
             if tier != "quick" or sh == "csv":
                 out.append(Scenario(f"gmx1/{sh}/{tk}/buy_glp+sell_glp", nv.nv_step, params=dict(prop=prop, market="gmx1", shape=sh, token=tk, op="buy_glp", op2="sell_glp"), entry=("GmxMarket.buy_glp", "GmxMarket.sell_glp"), **kw1))
+    # the same market object has served an earlier bar with other weights / supply / pool composition (every fee figure looked up there)
+    for op in ("buy_glp", "sell_glp"):
+        out.append(Scenario(f"gmx1/near_below/weth/{op}/after_another_bar", nv.nv_step, params=dict(prop=prop, market="gmx1", shape="near_below", token="weth", op=op, prior_bar=True), entry=(f"GmxMarket.{op}", "GmxMarket.set_market_status", "Broker.get_account_status"), **kw1))
     kw2 = dict(shadows=V2_SHADOWS, max_paths=600, float_model=True)
     shapes2 = list(V2_ROWS) if tier != "quick" else list(V2_ROWS)[:3]
     for sh in shapes2:
